@@ -9,6 +9,7 @@ from .common import *
 from .core import nontrivial, LOCAL_CONSTS, generate_behaviours, replay_local, PROPS
 from .c01 import GCONST, simulate, report_agreement
 from .fetch import fetch_part
+from .proposer import proposer_part
 
 
 def run_full(ctx, hs, kind, runs, extra=(), tag=""):
@@ -81,6 +82,8 @@ def run_c06(ctx):
                        "bound on the commit gap: (crashed + 2) round timeouts + 40 ticks"]
     hs = build_harness(ctx)
     liveness_model(ctx, q)
+    # the proposer's control system on its own (Proposer.tla): the next Make is served once a quorum, own stake included, acknowledged the last block
+    proposer_part(ctx, hs, "C06")
     first = True
     for n, runs in ([(4, 5), (5, 3), (7, 3)] if q else [(4, 60), (5, 40), (6, 40), (7, 40)]):
         st, rep, rep2, tpath = run_full(ctx, hs, "live", runs, extra=["n=%d" % n], tag="-n%d" % n)
@@ -195,6 +198,8 @@ def run_c13(ctx):
     r = simulate(ctx, "n4-honest", dict(Honest="{0,1,2,3}", Variants="{0}"), 30 if q else 600, 300)
     if r["violated"]:
         ctx.violation("HotStuff.tla violates %s (fault-free closed system)" % r["violated"], "model", {"tlc_output_tail": r["out"][-5000:]})
+    # the digest flow through the proposer (Proposer.tla): handed over -> buffered -> in exactly one block
+    proposer_part(ctx, hs, "C13")
     # batch fetching on its own: request to the proposer, retries with other peers after sync_retry_delay, resumption (Fetch.tla)
     fetch_part(ctx, hs, "C13")
     st, rep, rep2, tpath = run_full(ctx, hs, "e2e", 8 if q else 120)
